@@ -198,6 +198,10 @@ def run(pid, tier, seed, replay=None, nworkers=None, keep=False):
     lines = []
     for fid, n in sorted(known_hits.items()):
         lines.append(f"KNOWN-FINDING: property={pid} {fid}: {open_findings[fid]['what']} (hit {n}x)")
+    if not replay:
+        for fid in sorted(set(open_findings) - set(known_hits)):
+            # listed for this property but this run's workload did not reach its mechanism (e.g. only the thorough tier does)
+            lines.append(f"KNOWN-FINDING: property={pid} {fid}: {open_findings[fid]['what']} (listed; not reached by this run: hit 0x)")
     if new:
         rc = 1
         rdir = os.path.join(ROOT, "replays", pid)
